@@ -291,6 +291,16 @@ func runCheck(repo, verif, id, tier string, writeLedger bool) int {
 	}
 	if len(retry) > 0 && tier == "quick" {
 		SolveAll(work, retry, 30, runtime.NumCPU())
+		// a loaded machine (several checks at once) can push a 20 s nonlinear goal past 30 s: one last, long, narrow attempt
+		var again []*Obligation
+		for _, o := range retry {
+			if o.Result == "unknown" || o.Result == "timeout" {
+				again = append(again, o)
+			}
+		}
+		if len(again) > 0 && len(again) <= 4 {
+			SolveAll(work, again, 120, 4)
+		}
 	}
 	if writeLedger {
 		nl := Ledger{Property: id, Functions: map[string]string{}, Obls: map[string]string{}, DeadExits: map[string]bool{}, Locals: map[string][]string{}}
